@@ -291,9 +291,34 @@ def check_model_counts(res, sc, ctx, case):
         check_tpm("transcript_model", mc, tp, sc["norm"], ctx, case)
 
 
+@st.composite
+def split_scenarios(draw):
+    """Loci cut into several processing regions (templates of C05/C13), incl. reads that join a gene spanning the
+    cut to a gene behind it: such a read is compared with a different gene set in each region."""
+    rnd = draw(st.randoms(use_true_random=True))
+    src = S.RndSrc(rnd)
+    tmpl = draw(st.sampled_from(["pileups", "inner_bridge", "inner_bridge", "straddle"]))
+    if tmpl == "pileups":
+        sc = S.gen_deep_locus(src, with_annotation=True, max_reads=450, extra_chrom=False)
+    else:
+        sc = S.gen_long_gene_locus(src, with_annotation=True, straddle=tmpl == "straddle",
+                                   inner_bridge=tmpl == "inner_bridge")
+    tq, gq = draw(st.sampled_from(counting.STRATEGIES)), draw(st.sampled_from(counting.STRATEGIES))
+    norm = draw(st.sampled_from(["simple", "usable_reads"]))
+    sc["opts"] = ["--data_type", draw(st.sampled_from(["nanopore", "pacbio_ccs"])), "--no_gzip", "--threads", "1",
+                  "--transcript_quantification", tq, "--gene_quantification", gq, "--normalization_method", norm,
+                  "--no_model_construction"]
+    if draw(st.booleans()):
+        sc["opts"] += ["--high_memory"]
+    sc["tq"], sc["gq"], sc["norm"], sc["models"] = tq, gq, norm, False
+    sc["template"] = tmpl
+    return sc
+
+
 def stages(tier):
     q = tier == "quick"
     return [Stage("tables", "hyp", evaluate, n=256 if q else 5000, strategy=scenarios),
+            Stage("split", "hyp", evaluate, n=48 if q else 600, strategy=split_scenarios),
             Stage("counters", "hyp", eval_counters, n=4000 if q else 200000, strategy=counter_cases,
                   vary_hashseed=True)]
 
